@@ -30,6 +30,18 @@ func c08RandomSpec(c *core.Ctx, pattern string, dns bool) *gen.Spec {
 		v := []string{"1.2.3.4", "REFUSED", "NOERROR;MX;10 mail.example.net", "new.example.net", "::1", "NOERROR;TXT;a\\,b", "NOERROR;TXT;x\\,y\\,z"}[c.Rng.Intn(7)]
 		s.DNSRewrite = &v
 	}
+	if !dns && !s.Exception && c.Rng.Intn(8) == 0 {
+		// Blocking rules with one of the modifiers that say how to block: they
+		// have twins like any other rule.
+		switch c.Rng.Intn(3) {
+		case 0:
+			s.Popup, s.TypesP, s.TypesR = true, nil, nil
+		case 1:
+			s.Empty = true
+		default:
+			s.Mp4, s.TypesP, s.TypesR = true, nil, nil
+		}
+	}
 	if !dns && s.Exception && c.Rng.Intn(10) == 0 {
 		// A special-purpose exception (reported through StealthRule): it is
 		// disabled by its twin like any other rule.
@@ -386,6 +398,12 @@ func c08Run(c *core.Ctx, idx int) {
 			}
 		} else {
 			q.URL = xURL
+			switch {
+			case x1.Popup:
+				q.Type = rules.TypeDocument
+			case x1.Mp4:
+				q.Type = rules.TypeMedia
+			}
 			if q.Source == "" || c.Rng.Intn(2) == 0 {
 				q.Source = "http://site.com/"
 			}
